@@ -368,6 +368,8 @@ impl<T> Rc<T> {
         }
         let rcbox = this.ptr.as_ptr();
         let links = mem::replace(&mut (*rcbox).links, MaybeUninit::uninit());
+        #[cfg(cactusref_verif)]
+        crate::verif::poison(ptr::addr_of_mut!((*rcbox).links));
         drop(links.assume_init());
     }
 }
